@@ -10,7 +10,7 @@
     by the harness. The geometric predicates (CrossingSign, VertexCrossing) are parameters: C02/C03
     own them; nothing here depends on their definition. *)
 From Coq Require Import ZArith List Bool.
-From Geo Require Import Base.GoPrim.
+From Geo Require Import Base.GoPrim Gen.CellID.
 Import ListNotations.
 Local Open Scope Z_scope.
 
@@ -225,3 +225,30 @@ Definition relation_eqb (x y : cell_relation) : bool :=
   | Disjoint, Disjoint => true
   | _, _ => false
   end.
+
+(** * The structural part of [index_ok] as a decision procedure, run by the correspondence on every
+      small index the observer dumps. [numEdges] lists NumEdges of each shape of the collection.
+      Cell validity and ranges are the translated [s2.CellID.IsValid/RangeMin/RangeMax] (Gen/CellID.v). *)
+Fixpoint increasingb (l : list Z) : bool :=
+  match l with
+  | [] => true
+  | x :: t => match t with [] => true | y :: _ => x <? y end && increasingb t
+  end.
+Definition clipped_okb (numEdges : list Z) (cl : clipped) : bool :=
+  (0 <=? cl_shape cl) && (cl_shape cl <? lenZ numEdges) &&
+  increasingb (cl_edges cl) &&
+  forallb (fun e => (0 <=? e) && (e <? nthZ numEdges (cl_shape cl) 0)) (cl_edges cl) &&
+  (negb (lenZ (cl_edges cl) =? 0) || cl_containsCenter cl).
+Definition cell_okb (numEdges : list Z) (c : Z * index_cell) : bool :=
+  (0 <=? fst c) && (fst c <? 2 ^ 64) && s2_CellID_IsValid (fst c) &&
+  negb (lenZ (snd c) =? 0) && increasingb (map cl_shape (snd c)) &&
+  forallb (clipped_okb numEdges) (snd c).
+(** consecutive cells: RangeMax of one below RangeMin of the next *)
+Fixpoint cells_disjointb (ids : list Z) : bool :=
+  match ids with
+  | [] => true
+  | x :: t => match t with [] => true | y :: _ => s2_CellID_RangeMax x <? s2_CellID_RangeMin y end
+              && cells_disjointb t
+  end.
+Definition index_okb (numEdges : list Z) (idx : index) : bool :=
+  forallb (cell_okb numEdges) idx && cells_disjointb (cell_ids idx).
